@@ -7,6 +7,7 @@ package main
 // names by function value identity; behavioural: executing the pipeline).
 
 import (
+	"context"
 	"fmt"
 	"reflect"
 	"unsafe"
@@ -94,11 +95,13 @@ var pipelineNames = []string{"create", "query", "update", "delete", "row", "raw"
 // api binds the registration calls of one pipeline of one *gorm.DB.
 type api struct {
 	proc     *procMirror
-	register func(n, x, y string, hasX, hasY bool, fn func(*gorm.DB)) error
+	register func(sp uint8, n, x, y string, hasX, hasY bool, fn func(*gorm.DB)) error
 	replace  func(n string, fn func(*gorm.DB)) error
 	remove   func(n string) error
 	execute  func()
 }
+
+func alwaysMatch(*gorm.DB) bool { return true }
 
 type m17 struct {
 	ID   uint
@@ -131,8 +134,25 @@ func bind(db *gorm.DB, pipe string) api {
 	}
 	return api{
 		proc: (*procMirror)(unsafe.Pointer(p)),
-		register: func(n, x, y string, hasX, hasY bool, fn func(*gorm.DB)) error {
+		register: func(sp uint8, n, x, y string, hasX, hasY bool, fn func(*gorm.DB)) error {
+			if sp >= spMBA {
+				// every step through the chained (*callback) methods
+				c := p.Match(alwaysMatch)
+				switch {
+				case hasX && hasY && sp == spMAB:
+					c = c.After(y).Before(x)
+				case hasX && hasY:
+					c = c.Before(x).After(y)
+				case hasX:
+					c = c.Before(x)
+				case hasY:
+					c = c.After(y)
+				}
+				return c.Register(n, fn)
+			}
 			switch {
+			case hasX && hasY && sp == spAB:
+				return p.After(y).Before(x).Register(n, fn)
 			case hasX && hasY:
 				return p.Before(x).After(y).Register(n, fn)
 			case hasX:
@@ -195,6 +215,119 @@ type rt struct {
 	logs    map[uintptr]bool
 	fired   []ent
 	initial snap
+	// isolation: dbB opened independently, dbC opened with r.db's *Config value
+	others    []*otherDB
+	isoBroken string
+}
+
+// otherDB is a second DB whose pipelines must never be affected by (and must
+// never affect) registrations on r.db.
+type otherDB struct {
+	how  string
+	db   *gorm.DB
+	a    api
+	base string // registered callback list + compiled function values at creation
+	snap snap
+}
+
+func procFingerprint(p *procMirror) string {
+	b := appendProcKey(nil, p, false)
+	b = append(b, '#')
+	for _, f := range p.fns {
+		b = append(b, fmt.Sprintf("%x,", fptr(f))...)
+	}
+	return string(b)
+}
+
+func takeProc(p *procMirror) snap {
+	s := snap{cbs: make([]cbMirror, len(p.callbacks)), fns: append([]func(*gorm.DB){}, p.fns...)}
+	for i, c := range p.callbacks {
+		s.cbs[i] = *c
+	}
+	return s
+}
+
+func restoreProc(p *procMirror, s snap) {
+	objs := make([]cbMirror, len(s.cbs))
+	copy(objs, s.cbs)
+	ptrs := make([]*cbMirror, len(objs), len(objs)+4)
+	for i := range objs {
+		ptrs[i] = &objs[i]
+	}
+	p.callbacks = ptrs
+	p.fns = append(make([]func(*gorm.DB), 0, len(s.fns)), s.fns...)
+}
+
+// openOthers obtains further DBs the ways users do and records their pipelines.
+func (r *rt) openOthers() {
+	before := procFingerprint(r.a.proc)
+	open := func(how string, opt gorm.Option) {
+		db, err := gorm.Open(nopDialector{}, opt)
+		if err != nil {
+			r.isoBroken = fmt.Sprintf("gorm.Open (%s) failed: %v", how, err)
+			return
+		}
+		o := &otherDB{how: how, db: db, a: bind(db, r.cfg.Name)}
+		o.base = procFingerprint(o.a.proc)
+		o.snap = takeProc(o.a.proc)
+		r.others = append(r.others, o)
+		if len(o.a.proc.callbacks) != r.cfg.nb && r.isoBroken == "" {
+			r.isoBroken = fmt.Sprintf("a DB opened with %s starts with %d callbacks in the %s pipeline instead of the %d built-ins", how, len(o.a.proc.callbacks), r.cfg.Name, r.cfg.nb)
+		}
+	}
+	open("its own fresh Config", &gorm.Config{Logger: logger.Discard, DryRun: true, DisableAutomaticPing: true})
+	open("the first DB's *Config value (gorm.Open(dialector, db1.Config))", r.db.Config)
+	if after := procFingerprint(r.a.proc); after != before && r.isoBroken == "" {
+		r.isoBroken = "opening further DBs changed the first DB's pipeline: the registered callback list / compiled functions differ"
+	}
+}
+
+// isolation: pipelines of the other DBs are unchanged; Session/WithContext
+// handles of the same DB use the same pipelines.
+func (r *rt) isolation() string {
+	if r.isoBroken != "" {
+		return r.isoBroken
+	}
+	for _, o := range r.others {
+		if procFingerprint(o.a.proc) != o.base {
+			return fmt.Sprintf("a registration call on one DB changed the %s pipeline of a DB opened with %s", r.cfg.Name, o.how)
+		}
+	}
+	return ""
+}
+
+func (r *rt) handlesShare() string {
+	cb := r.db.Callback()
+	if r.db.Session(&gorm.Session{}).Callback() != cb || r.db.WithContext(context.Background()).Callback() != cb ||
+		r.db.Session(&gorm.Session{NewDB: true}).Callback() != cb || r.db.Debug().Callback() != cb {
+		return "a Session/WithContext/Debug handle of the same DB does not use the DB's callback pipelines"
+	}
+	return ""
+}
+
+// reverse: the same operation issued on another DB must leave r.db's pipeline alone.
+func (r *rt) reverseIsolation(o Op, gen int8) string {
+	mine := procFingerprint(r.a.proc)
+	c := r.cfg
+	for _, od := range r.others {
+		func() {
+			defer func() { recover() }()
+			stub := func(*gorm.DB) { _ = gen }
+			switch o.K {
+			case kRegister:
+				od.a.register(o.S, c.name(o.N), c.name(o.X), c.name(o.Y), o.X >= 0, o.Y >= 0, stub)
+			case kReplace:
+				od.a.replace(c.name(o.N), stub)
+			case kRemove:
+				od.a.remove(c.name(o.N))
+			}
+		}()
+		restoreProc(od.a.proc, od.snap)
+		if procFingerprint(r.a.proc) != mine {
+			return fmt.Sprintf("a registration call on a DB opened with %s changed the %s pipeline of the first DB", od.how, c.Name)
+		}
+	}
+	return ""
 }
 
 type snap struct {
@@ -264,6 +397,7 @@ func newRT(cfg *pipeCfg, init int) (*rt, error) {
 		}
 	}
 	r.initial = r.take()
+	r.openOthers()
 	return r, nil
 }
 
@@ -277,7 +411,7 @@ func (r *rt) apply(o Op, gen int8) (err error, panicked string) {
 	c := r.cfg
 	switch o.K {
 	case kRegister:
-		err = r.a.register(c.name(o.N), c.name(o.X), c.name(o.Y), o.X >= 0, o.Y >= 0, r.stubs[o.N][gen])
+		err = r.a.register(o.S, c.name(o.N), c.name(o.X), c.name(o.Y), o.X >= 0, o.Y >= 0, r.stubs[o.N][gen])
 	case kReplace:
 		err = r.a.replace(c.name(o.N), r.stubs[o.N][gen])
 	case kRemove:
@@ -318,8 +452,10 @@ func (r *rt) run() (fired []ent, panicked string) {
 }
 
 // stateKey: the registered callback list as gorm holds it after the call.
-func (r *rt) appendStateKey(b []byte) []byte {
-	for _, c := range r.a.proc.callbacks {
+func (r *rt) appendStateKey(b []byte) []byte { return appendProcKey(b, r.a.proc, false) }
+
+func appendProcKey(b []byte, p *procMirror, ignoreMatch bool) []byte {
+	for _, c := range p.callbacks {
 		b = append(b, c.name...)
 		b = append(b, '<')
 		b = append(b, c.before...)
@@ -332,7 +468,7 @@ func (r *rt) appendStateKey(b []byte) []byte {
 		if c.replace {
 			fl |= 2
 		}
-		if c.match != nil {
+		if c.match != nil && !ignoreMatch {
 			fl |= 4
 		}
 		b = append(b, '|', fl, ';')
